@@ -151,7 +151,7 @@ fn gen_input(rng: &mut Rng, lt: Lt) -> Vec<u8> {
 
 fn gen_case(rng: &mut Rng) -> C1 {
     let lt = *rng.pick(&[Lt::Lf, Lt::Lf, Lt::Crlf, Lt::Crlf, Lt::Nul]);
-    let cfg = Cfg { lt, inv: rng.chance(1, 4), a: 0, b: 0, pt: rng.chance(1, 3), ln: true, son: false, ml: false };
+    let cfg = Cfg { lt, inv: rng.chance(1, 4), a: 0, b: 0, pt: rng.chance(1, 3), ln: true, son: false, ml: false, bin: Bin::None };
     let fixed = rng.chance(1, 10);
     let np = if rng.chance(1, 5) { 2 } else { 1 };
     let pats: Vec<String> = (0..np)
